@@ -18,7 +18,7 @@ ELECTION_ID = "2022-11-08_USA_G"
 
 ROLES = [
     "reporting", "reporting", "reporting", "reporting", "reporting", "partial", "partial", "zero-percent",
-    "zero-baseline", "blocklisted", "strange-low", "strange-high", "missing", "nan-estimand", "third-party-heavy",
+    "zero-baseline", "blocklisted", "strange-low", "strange-high", "missing", "nan-estimand", "third-party-heavy", "zero-dem-baseline",
 ]
 
 
@@ -144,6 +144,8 @@ def gen_election(rng, size="small", district=False, roles=None, min_reporting=8,
             role = rng.choice(role_pool)
             if role == "zero-baseline":
                 bd = bg = bt = 0
+            if role == "zero-dem-baseline":
+                bd = 0  # one party not on the ballot last time: the unit still has a baseline for the other estimands
             row = {
                 "postal_code": s, "geographic_unit_fips": uid, "county_fips": cf, "county_classification": cls[cf],
                 "baseline_dem": bd, "baseline_gop": bg, "baseline_turnout": bt,
@@ -204,13 +206,16 @@ def feed_row(rng, e, row, role):
 
     if role == "missing":
         return None
-    if role in ("reporting", "blocklisted", "zero-baseline"):
+    if role in ("reporting", "blocklisted", "zero-baseline", "zero-dem-baseline"):
         d, g, t = counts(0.7, 1.4)
         if role == "zero-baseline":
             d, g, t = rng.randint(0, 30), rng.randint(0, 30), 0
             t = d + g
+        if role == "zero-dem-baseline":
+            d = rng.randint(5, 400)
+            t = d + g + rng.randint(0, 20)
         pev = rng.choice([100, 100, 100, e.threshold, max(e.threshold, 97)])
-        if role != "reporting" and rng.random() < 0.4:
+        if role not in ("reporting", "zero-dem-baseline") and rng.random() < 0.4:
             pev = rng.choice([0, 30, max(0, e.threshold - 1)])
     elif role == "partial":
         d, g, t = counts(0.05, 0.9)
